@@ -429,7 +429,60 @@ let mk_sys toks =
         spec_check n aprogs rets final) }
   | _ -> failwith "unknown case header"
 
+(* ---- search of the release/acquire view model of the sequence lock (model/SeqLockRA.v) for an
+        execution with a racy USED access under a given table of four memory orderings (used when
+        the observed orderings differ from the table of c12_slra_atomic_monotone_used_race_free) ---- *)
+let ord_of_string = function
+  | "rlx" -> Relaxed | "rel" -> Release | "acq" -> Acquire | "acqrel" -> AcqRel | "sc" -> SeqCst
+  | s -> failwith ("ordering " ^ s)
+
+let slra_search (o : sords) =
+  let found = ref None in
+  let seen = Hashtbl.create 100000 in
+  let v k = [n_of_int k] in
+  let templates = [
+    ("acq,st7,st8,st9|ld", [| [OAcq; OStore (v 7); OStore (v 8); OStore (v 9)]; [OLoad] |]);
+    ("acq,st7,st8,st9|ld,ld", [| [OAcq; OStore (v 7); OStore (v 8); OStore (v 9)]; [OLoad; OLoad] |]);
+    ("acq,st7,st8|ld|ld", [| [OAcq; OStore (v 7); OStore (v 8)]; [OLoad]; [OLoad] |]) ] in
+  List.iter (fun (name, progs) ->
+    if !found = None then begin
+      Hashtbl.reset seen;
+      let nt = Array.length progs in
+      let rec go c sched =
+        if !found <> None then () else begin
+          let (g, ls) = c in
+          let key = Marshal.to_string (slra_set_oracle g [], Array.init nt (fun i -> ls (nat_of_int i))) [] in
+          if not (Hashtbl.mem seen key) then begin
+            Hashtbl.add seen key ();
+            for t = 0 to nt - 1 do
+              List.iter (fun k ->
+                if !found = None then begin
+                  let c0 = (slra_set_oracle g [n_of_int k], ls) in
+                  match slra_step1 o (nat_of_int t) c0 with
+                  | None -> ()
+                  | Some (c', _) ->
+                    let consumed = (slra_oracle (fst c') = []) in
+                    if k = 0 || consumed then begin
+                      let sched' = (t, if consumed then k else 0) :: sched in
+                      if slra_race_used (fst c') then found := Some (name, List.rev sched')
+                      else go c' sched'
+                    end
+                end) [0; 1000]
+            done
+          end
+        end in
+      go (slra_init (nat_of_int 1) (v 5) [] (fun t -> let i = int_of_nat t in if i < nt then progs.(i) else [])) []
+    end) templates;
+  match !found with
+  | Some (name, sched) ->
+    Printf.printf "SLRAWITNESS used-race size=1 program=%s schedule=%s\n" name
+      (String.concat "," (List.map (fun (t, k) -> Printf.sprintf "%d:%d" t k) sched))
+  | None -> print_string "SLRACLEAN\n"
+
 let () =
+  if Array.length Sys.argv > 1 && Sys.argv.(1) = "slra" then
+    slra_search (slra_mk_ords (ord_of_string Sys.argv.(2)) (ord_of_string Sys.argv.(3)) (ord_of_string Sys.argv.(4)) (ord_of_string Sys.argv.(5)))
+  else
   if Array.length Sys.argv > 1 && Sys.argv.(1) = "g3" then run_g3 () else begin
   run mk_sys (fun toks -> String.concat " " toks);
   Hashtbl.iter (fun k v -> Printf.printf "EXTRA %s %d\n" k v) extra;
